@@ -272,6 +272,47 @@ theorem compile_leaves_the_log_alone (fuel : Nat) (toks : List Compile.Tok) (s s
   | unsupported u => cases h
   | timeout => cases h
 
+open Xeh.Session Xeh.Session.Sess in
+/-- **rewinding a compiled program.**  An idle session, recording on, the log empty or ending in a complete step
+    (`LogHead`); a source is compiled — whatever it runs while it is read.  Then the main theorem applies to the
+    machine `compile` leaves behind: after any `n` forward steps of the program, `k ≤ n` backward steps restore the
+    complete machine state (core and log) of `k` steps earlier — down to `k = n`, the state right after `compile`. -/
+theorem compiled_program_rewinds (fuel : Nat) (toks : List Compile.Tok) (s s' : Sess) (ℓ : List RStep) (idle : Idle s)
+    (hl : s.m.log = some ℓ) (hℓ : LogHead ℓ) (h : s.buildSource fuel .compile toks = .done s')
+    (n k : Nat) (hk : k ≤ n) (mn : Mach) (hn : stepN nativeProg n s'.m = some mn) :
+    ∃ mid back, stepN nativeProg (n - k) s'.m = some mid ∧ rnextN k mn = some back ∧
+      back.core = mid.core ∧ back.log = mid.log := by
+  have hlog := compile_leaves_the_log_alone fuel toks s s' idle h
+  have hw : WF s'.m := by
+    have hb := sok_build1 (ext_open idle .compile (by decide)) (by decide) fuel toks
+    unfold Sess.buildSource at h
+    simp only [] at h
+    generalize hg : (s.contextOpen .compile).build1 fuel toks = r at h hb
+    cases r with
+    | ok s2 =>
+      simp only at h
+      have e0 : Ext0 s s2 := hb.ext0
+      obtain ⟨hmode, hnest⟩ := build1_ok_base fuel toks (by decide) hg hb
+      have hmode' : (forgetBuildLog s.m s2.m).ctx.mode = .compile := hmode
+      simp only [Sess.contextClose, hnest, hmode'] at h
+      cases h
+      have len_of : ∀ {α : Type} (l x : List α) (n : Nat), hidOf l n = x → x.length = n → n ≤ l.length := by
+        intro α l x n e1 e2
+        have := congrArg List.length e1
+        simp only [hidOf, List.length_drop] at this
+        omega
+      have w0 := idle.wf
+      refine ⟨?_, ?_, ?_, ?_⟩
+      · have := len_of _ _ _ e0.ds rfl; exact Nat.le_trans w0.ds this
+      · have := len_of _ _ _ e0.rs rfl; exact Nat.le_trans w0.rs this
+      · have := len_of _ _ _ e0.loops rfl; exact Nat.le_trans w0.ls this
+      · have := len_of _ _ _ e0.special rfl; exact Nat.le_trans w0.ss this
+    | err e2 s2 => cases h
+    | panic p s2 => cases h
+    | unsupported u => cases h
+    | timeout => cases h
+  exact rewind nativeProg n k hk s'.m mn ℓ hw (by rw [hlog]; exact hl) hℓ hn
+
 /-! ### non-vacuity: a concrete recording machine in the middle of a counted loop with a local -/
 
 def demoCode : List Op :=
